@@ -49,6 +49,8 @@ Inductive stm :=
 | SFall
 | SAssign (x : string) (e : fexp) (k : stm)
 | SIf (c : fexp) (a b : stm) (k : stm)
+| SFor (x : string) (it : fexp) (body : stm) (k : stm)     (* for x in it: body   (no else clause) *)
+| SBreak
 | SOpaque (why : string).
 
 Inductive pkind := PPos | PVar | PKwOnly | PKwargs.
@@ -69,6 +71,7 @@ Record prims := mkPrims {
   over_drops_none : bool;          (*   kwargs with value None are dropped *)
   binop_str_is_literal : bool;     (* binary_op / inverse_binary_op: str operand -> _lit *)
   pow_uses_ctor : bool;            (* __pow__/__rpow__: Column(power) *)
+  fmt_col_is_name : bool;          (* session.format_time(Column) formats value.expression.this, i.e. the NAME *)
   col_ops : list string;           (* dunder methods defined by Column: "add" "radd" "eq" ... *)
   str_methods : list string;       (* dir(str): a method with such a name exists on a raw str *)
   exec_dialect : list (string * string);          (* engine -> name of its execution dialect *)
@@ -89,16 +92,20 @@ Inductive node :=
 Inductive val :=
 | VNone | VBool (b : bool) | VInt (z : Z) | VFloat (s : string) | VStr (s : string)
 | VCol (n : node)            (* sqlframe Column *)
-| VExp (n : node)            (* sqlglot expression or another opaque deterministic object *)
+| VExp (n : node)            (* sqlglot expression (or a session/dialect helper object) *)
+| VOpq (n : node)            (* deterministic python value of unknown type and truth value (e.g. a computed str) *)
 | VList (tup : bool) (l : list val)
 | VFun (f : string)
 | VSess
-| VLam                       (* a python callable passed by the caller *)
+| VLam (n : nat)             (* the caller's lambda  x1 .. xn -> x1  (what the correspondence run passes) *)
 | VErr (why : string)
 | VUnk (why : string).
 
+(** computed python values are wrapped: nothing inside them counts as an occurrence of a column or literal *)
+Definition mkopq (n : node) : val := VOpq (NN "opaque-value" [n]).
+
 Inductive sarg := SStr (s : string) | SCol (s : string) | SInt (z : Z) | SFloat (s : string)
-                | SBool (b : bool) | SNone | SLambda | STest.
+                | SBool (b : bool) | SNone | SLam (n : nat) | STest.
 
 (* ------------------------------------------------------------------------------------------ helpers *)
 Definition mem (s : string) (l : list string) : bool := existsb (String.eqb s) l.
@@ -135,7 +142,8 @@ Fixpoint val_eqb (a b : val) {struct a} : bool :=
   | VBool x, VBool y => Bool.eqb x y
   | VInt x, VInt y => Z.eqb x y
   | VFloat x, VFloat y | VStr x, VStr y | VFun x, VFun y => String.eqb x y
-  | VCol x, VCol y | VExp x, VExp y => node_eqb x y
+  | VCol x, VCol y | VExp x, VExp y | VOpq x, VOpq y => node_eqb x y
+  | VLam x, VLam y => Nat.eqb x y
   | VList t1 l1, VList t2 l2 =>
       Bool.eqb t1 t2 &&
       (fix go (l1 l2 : list val) {struct l1} : bool :=
@@ -149,11 +157,47 @@ Fixpoint val_eqb (a b : val) {struct a} : bool :=
 
 Fixpoint val_unk (a : val) : bool :=
   match a with
-  | VUnk _ | VLam => true
-  | VCol n | VExp n => node_unk n
+  | VUnk _ => true
+  | VCol n | VExp n | VOpq n => node_unk n
   | VList _ l => (fix go (l : list val) : bool := match l with [] => false | x :: r => val_unk x || go r end) l
   | _ => false
   end.
+
+(** data-flow fingerprint used by the correspondence check: how often the name [s] occurs in a result as a column
+    reference ([col] = true) or as a string literal ([col] = false) *)
+Fixpoint ncount (col : bool) (s : string) (n : node) : nat :=
+  match n with
+  | NCol x => if col && String.eqb x s then 1 else 0
+  | NLit x => if negb col && String.eqb x s then 1 else 0
+  | NN tag kids =>
+      match kids with
+      | [NRaw x] =>
+          if String.eqb tag "exp:Literal.string"
+          then (if negb col && String.eqb x s then 1 else 0)
+          else if String.eqb tag "exp:column" then (if col && String.eqb x s then 1 else 0)
+          else 0
+      | _ => if String.eqb tag "opaque-value" then 0 else
+             (fix go (l : list node) : nat := match l with [] => 0 | x :: r => ncount col s x + go r end) kids
+      end
+  | _ => 0
+  end.
+(** session.format_time rewrites the text of its argument (dialect time-format mapping): string literals are then
+    not comparable by text *)
+Fixpoint has_fmt (n : node) : bool :=
+  match n with
+  | NN tag kids =>
+      String.eqb tag "session.format_time" || String.eqb tag "session.format_execution_time" ||
+      (fix go (l : list node) : bool := match l with [] => false | x :: r => has_fmt x || go r end) kids
+  | _ => false
+  end.
+Definition vcount (col : bool) (s : string) (v : val) : nat :=
+  match v with VCol n | VExp n => ncount col s n | _ => 0 end.
+(** [fp] = what the implementation's tree contains: (name, #column references, #string literals) *)
+Definition fp_ok (v : val) (fp : list (string * nat * nat)) : bool :=
+  forallb (fun t : string * nat * nat =>
+             let '(s, nc, nl) := t in
+             Nat.eqb (vcount true s v) nc &&
+             ((match v with VCol n | VExp n => has_fmt n | _ => false end) || Nat.eqb (vcount false s v) nl)) fp.
 
 Definition is_err (v : val) : bool := match v with VErr _ => true | _ => false end.
 Definition abnormal (v : val) : bool := match v with VErr _ | VUnk _ => true | _ => false end.
@@ -179,6 +223,7 @@ Fixpoint as_lit (v : val) : node :=          (* Column._lit / Column(value) for 
   | VBool b => NBool b
   | VNone => NNull
   | VList _ l => NN "array" (map as_lit l)
+  | VOpq n => NN "literal-of" [n]
   | _ => NUnk
   end.
 
@@ -194,7 +239,25 @@ Fixpoint as_raw (v : val) : node :=          (* argument of a sqlglot constructo
   | VList _ l => NN "list" (map as_raw l)
   | VFun f => NN "function" [NRaw f]
   | VSess => NN "session" []
+  | VOpq n => n
+  | VLam n => NN "lambda" [NNum (zstr (Z.of_nat n))]
   | _ => NUnk
+  end.
+
+Fixpoint find_literals (n : node) : list node :=
+  match n with
+  | NLit _ | NNum _ => [n]
+  | NN tag kids =>
+      if mem tag ["exp:Literal.string"; "exp:Literal.number"] then [n]
+      else (fix go (l : list node) : list node := match l with [] => [] | x :: r => find_literals x ++ go r end)%list kids
+  | _ => []
+  end.
+
+Fixpoint has_colobj (v : val) : bool :=
+  match v with
+  | VCol _ => true
+  | VList _ l => (fix go (l : list val) : bool := match l with [] => false | x :: r => has_colobj x || go r end) l
+  | _ => false
   end.
 
 Section Sem.
@@ -214,18 +277,21 @@ Section Sem.
     | VExp n => VCol n
     | VNone | VInt _ | VFloat _ | VBool _ | VList _ _ => VCol (as_lit v)
     | VErr _ | VUnk _ => v
+    | VOpq n => VCol (NN "col-of-opaque" [n])
     | _ => VUnk "col() of a non-data value"
     end.
   (** Column(v) *)
   Definition ctor (v : val) : val :=
     match v with
     | VStr s => if ctor_str_is_parsed P then VCol (NCol s) else VCol (NLit s)
+    | VOpq n => VCol (NN "ctor-of-opaque" [n])
     | _ => to_col v
     end.
   (** lit(v) *)
   Definition lit (v : val) : val :=
     match v with
     | VStr s => if lit_str_is_literal P then VCol (NLit s) else VCol (NCol s)
+    | VOpq n => VCol (NN "literal-of" [n])
     | _ => to_col v
     end.
   Definition ensure_col (v : val) : val := if ensure_col_calls_col P then to_col v else ctor v.
@@ -268,6 +334,9 @@ Section Sem.
         end
     | VInt a, VInt b => arith op a b
     | VStr a, VStr b => if String.eqb op "add" then VStr (a ++ b) else VErr "TypeError: str operator"
+    | VStr a, VInt z => if String.eqb op "mul" then mkopq (NN "str*int" [NRaw a; NNum (zstr z)]) else VErr "TypeError: str operator"
+    | VStr _, VOpq _ | VOpq _, VStr _ | VOpq _, VOpq _ =>
+        if String.eqb op "add" then mkopq (NN "str+str" [as_raw l; as_raw r]) else VUnk "operator on a computed value"
     | VList t1 a, VList t2 b =>
         if String.eqb op "add" then (if Bool.eqb t1 t2 then VList t1 (a ++ b) else VErr "TypeError: list + tuple")
         else VErr "TypeError: list operator"
@@ -337,7 +406,7 @@ Section Sem.
     | VInt z => Some (negb (z =? 0)%Z)
     | VStr s => Some (negb (String.eqb s ""))
     | VList _ l => Some (match l with [] => false | _ => true end)
-    | VCol _ | VExp _ | VFun _ | VSess => Some true
+    | VCol _ | VExp _ | VFun _ | VSess | VLam _ => Some true
     | _ => None
     end.
 
@@ -352,7 +421,20 @@ Section Sem.
       | VList t _ => Some (String.eqb ty (if t then "tuple" else "list"))
       | VCol _ => Some (String.eqb ty "Column")
       | VNone => Some false
-      | VExp _ | VFun _ | VSess => if builtin then Some false else None
+      | VExp n =>
+          if builtin then Some false
+          else if String.eqb ty "expression.Literal" then
+            match n with
+            | NLit _ | NNum _ => Some true
+            | NCol _ | NNull | NBool _ => Some false
+            | NN tag _ => if mem tag ["exp:Literal.string"; "exp:Literal.number"; "exp:Literal"] then Some true
+                          else if prefix "exp:Literal" tag then None else Some false
+            | _ => None
+            end
+          else if String.eqb ty "expression.Column" then
+            match n with NCol _ => Some true | NLit _ | NNum _ | NNull | NBool _ => Some false | _ => None end
+          else None
+      | VFun _ | VSess | VLam _ => if builtin then Some false else None
       | _ => None
       end in
     (fix go (l : list string) : val :=
@@ -503,9 +585,20 @@ Section Sem.
     else if String.eqb p "extend" then
       match args with [VList t l; VList _ l'] => VList t (l ++ l') | _ => VUnk "extend" end
     else if String.eqb p "warn" then VNone
+    else if String.eqb p "reversed" then
+      match args with [VList _ l] => VList false (rev l) | _ => VUnk "reversed" end
+    else if String.eqb p "fstr" then       (* f-string: a str whose content is a function of its parts *)
+      if forallb (fun v => match v with VStr _ | VInt _ | VBool _ | VNone | VOpq _ | VFloat _ => true | _ => false end) args
+      then mkopq (NN "fstr" (map as_raw args)) else VUnk "f-string over objects"
+    else if String.eqb p "nameerror" then VErr "NameError"
     else if String.eqb p "exp" then       (* free constructor / helper of sqlglot: first arg is its dotted name *)
       match args with
-      | VStr name :: rest => VExp (NN ("exp:" ++ name) (map as_raw rest ++ map (fun kv => kwnode kv as_raw) kw))
+      | VStr name :: rest =>
+          (* a sqlframe Column OBJECT stored inside a sqlglot node misbehaves (sqlglot probes it with getattr, which
+             Column answers with getField): not modelled *)
+          if existsb has_colobj rest || existsb (fun kv : string * val => has_colobj (snd kv)) kw
+          then VUnk "Column object passed to a sqlglot constructor"
+          else VExp (NN ("exp:" ++ name) (map as_raw rest ++ map (fun kv => kwnode kv as_raw) kw))
       | _ => VUnk "exp"
       end
     else VUnk ("primitive " ++ p).
@@ -517,10 +610,30 @@ Section Sem.
           match args with [a] => VCol (NN "alias" [unalias n; as_raw a]) | _ => VUnk "alias arity" end
         else if mem m (str_methods P) then VUnk "Column method with a str method name"
         else VCol (NN ("m:" ++ m) (n :: map as_lit args ++ map (fun kv => kwnode kv as_lit) kw))
-    | VExp n => VExp (NN ("em:" ++ m) (n :: map as_raw args ++ map (fun kv => kwnode kv as_raw) kw))
-    | VSess => VExp (NN ("session." ++ m) (map as_raw args ++ map (fun kv => kwnode kv as_raw) kw))
-    | VStr _ => if mem m (str_methods P) then VUnk "str method" else VErr "AttributeError: str"
-    | VList _ _ => VUnk "list method"
+    | VExp n =>
+        if String.eqb m "find_all" then
+          match args with
+          | [VExp (NN "exp:Literal" [])] => VList false (map VExp (find_literals n))
+          | _ => VUnk "find_all of another class"
+          end
+        else VExp (NN ("em:" ++ m) (n :: map as_raw args ++ map (fun kv => kwnode kv as_raw) kw))
+    | VSess =>
+        if String.eqb m "format_time" || String.eqb m "format_execution_time" then
+          (* formats the str; for a Column it formats value.expression.this: the column's NAME / the literal's text *)
+          let fa (v : val) : node :=
+            match v with
+            | VCol (NCol s) | VCol (NLit s) => if fmt_col_is_name P then NRaw s else NN "column-object" [NCol s]
+            | _ => as_raw v
+            end in
+          VExp (NN ("session." ++ m) (map fa args))
+        else VExp (NN ("session." ++ m) (map as_raw args ++ map (fun kv => kwnode kv as_raw) kw))
+    | VStr s0 =>
+        if mem m (str_methods P)
+        then (if forallb (fun v => match v with VStr _ | VInt _ | VNone | VBool _ => true | _ => false end) args
+              then mkopq (NN ("strm:" ++ m) (NRaw s0 :: map as_raw args)) else VUnk "str method over objects")
+        else VErr "AttributeError: str"
+    | VOpq n => mkopq (NN ("om:" ++ m) (n :: map as_raw args ++ map (fun kv => kwnode kv as_raw) kw))
+    | VList t l => if String.eqb m "copy" then VList t l else VUnk "list method"
     | VNone | VInt _ | VBool _ | VFloat _ => VErr "AttributeError"
     | VErr _ | VUnk _ => recv
     | _ => VUnk "method on an opaque object"
@@ -531,8 +644,29 @@ Section Sem.
     | VCol n =>
         if String.eqb a "column_expression" then VExp (unalias n)
         else if String.eqb a "expression" then VExp n
+        else if String.eqb a "alias_or_name" || String.eqb a "column_alias_or_name" then mkopq (NN ("attr:" ++ a) [n])
         else VUnk ("Column attribute " ++ a)
-    | VExp n => VExp (NN ("attr:" ++ a) [n])
+    | VExp n =>
+        if String.eqb a "is_number" || String.eqb a "is_string" then
+          let num := String.eqb a "is_number" in
+          match n with
+          | NNum _ => VBool num
+          | NLit _ => VBool (negb num)
+          | NN "exp:Literal.number" _ => VBool num
+          | NN "exp:Literal.string" _ => VBool (negb num)
+          | NCol _ => VBool false
+          | _ => VUnk "is_number of an unknown node"
+          end
+        else if String.eqb a "co_varnames" then
+          match n with
+          | NN "code" [NNum "1"] => VList true [VStr "x"]
+          | NN "code" [NNum "2"] => VList true [VStr "x"; VStr "y"]
+          | NN "code" [NNum "3"] => VList true [VStr "x"; VStr "y"; VStr "z"]
+          | _ => VUnk "co_varnames"
+          end
+        else VExp (NN ("attr:" ++ a) [n])
+    | VLam n => if String.eqb a "__code__" then VExp (NN "code" [NNum (zstr (Z.of_nat n))]) else VUnk "lambda attribute"
+    | VOpq n => mkopq (NN ("attr:" ++ a) [n])
     | VSess =>
         if String.eqb a "_is_standalone" || String.eqb a "_is_spark" || String.eqb a "_is_duckdb"
            || String.eqb a "_is_bigquery" || String.eqb a "_is_postgres" || String.eqb a "_is_redshift"
@@ -555,7 +689,9 @@ Section Sem.
     Definition apply (f : val) (args : list val) (kw : list (string * val)) : val :=
       match f with
       | VFun name => callf name args kw
-      | VLam => VUnk "call of a caller-supplied lambda"
+      | VLam n => if Nat.eqb (length args) n
+                  then match args, kw with a :: _, [] => a | _, _ => VErr "TypeError: lambda arguments" end
+                  else VErr "TypeError: lambda arguments"
       | VCol _ => VErr "UnsupportedOperationError: Column is not callable"
       | VStr _ | VNone | VInt _ | VBool _ | VList _ _ => VErr "TypeError: not callable"
       | VErr _ | VUnk _ => f
@@ -641,7 +777,7 @@ Section Sem.
       | EOpaque why => VUnk why
       end.
 
-    Inductive res := RRet (v : val) | RFall (rho : env).
+    Inductive res := RRet (v : val) | RFall (rho : env) | RBreak (rho : env).
 
     Fixpoint exec (rho : env) (s : stm) {struct s} : res :=
       match s with
@@ -660,7 +796,32 @@ Section Sem.
               match exec rho (if t then a else b) with
               | RRet v => RRet v
               | RFall rho' => exec rho' k
+              | RBreak rho' => RBreak rho'
               end
+          end
+      | SBreak => RBreak rho
+      | SFor x it body k =>
+          let iv := eval rho it in
+          if abnormal iv then RRet iv else
+          match iv with
+          | VList _ items =>
+              match (fix loop (l : list val) (rho : env) : res :=
+                       match l with
+                       | [] => RFall rho
+                       | item :: r =>
+                           match exec ((x, item) :: rho) body with
+                           | RRet v => RRet v
+                           | RFall rho' => loop r rho'
+                           | RBreak rho' => RFall rho'
+                           end
+                       end) items rho with
+              | RRet v => RRet v
+              | RFall rho' => exec rho' k
+              | RBreak rho' => exec rho' k
+              end
+          | VStr _ => RRet (VUnk "iteration over a str")
+          | VNone | VInt _ | VBool _ | VCol _ => RRet (VErr "TypeError: not iterable")
+          | _ => RRet (VUnk "iteration over an opaque object")
           end
       | SOpaque why => RRet (VUnk why)
       end.
@@ -718,6 +879,7 @@ Section Sem.
                 match exec (call fuel') rho (f_body d) with
                 | RRet v => v
                 | RFall _ => VNone
+                | RBreak _ => VErr "SyntaxError: break outside loop"
                 end
             end
         end
@@ -731,7 +893,7 @@ Section Sem.
     | SFloat s => VFloat s
     | SBool b => VBool b
     | SNone => VNone
-    | SLambda => VLam
+    | SLam n => VLam n
     | STest => VUnk "unfilled test slot"
     end.
 
@@ -772,9 +934,18 @@ Section Verdict.
     let '(f, g, p) := k in String.eqb f (e_fun e) && String.eqb g (e_eng e) && Nat.eqb p (e_pos e).
   Definition listed (ks : list (string * string * nat)) (e : entry) : bool := existsb (fun k => key_eqb k e) ks.
 
+  (** both at once, evaluating each call form a single time (vm_compute is call-by-value: [if] keeps it lazy) *)
+  Definition judge (c : string) (e : entry) : bool * bool :=
+    let rs := res_str c e in
+    let rc := res_col c e in
+    (negb (val_unk rs) && negb (val_unk rc), if is_err rc then true else val_eqb rs rc).
+  Lemma judge_spec : forall c e, judge c e = (decided c e, holds c e).
+  Proof. reflexivity. Qed.
+
   (** the reflection: every decided entry outside [bad] satisfies the property, for every probe name *)
   Definition all_ok (names : list string) (bad : list (string * string * nat)) (es : list entry) : bool :=
-    forallb (fun e => forallb (fun c => implb (decided c e && negb (listed bad e)) (holds c e)) names) es.
+    forallb (fun e => if listed bad e then true
+                      else forallb (fun c => let (d, h) := judge c e in if d then h else true) names) es.
 
   Theorem all_ok_sound : forall names bad es,
     all_ok names bad es = true ->
@@ -782,8 +953,22 @@ Section Verdict.
   Proof.
     intros names bad es Hall e c He Hc Hd Hb.
     unfold all_ok in Hall. rewrite forallb_forall in Hall.
-    specialize (Hall e He). rewrite forallb_forall in Hall. specialize (Hall c Hc).
-    rewrite Hd, Hb in Hall. simpl in Hall. exact Hall.
+    specialize (Hall e He). rewrite Hb in Hall. rewrite forallb_forall in Hall. specialize (Hall c Hc).
+    rewrite judge_spec in Hall. rewrite Hd in Hall. exact Hall.
+  Qed.
+
+  (** a listed defect is a genuine counterexample of the model: some vector with that key is decided and fails *)
+  Definition refuted (c : string) (k : string * string * nat) (es : list entry) : bool :=
+    existsb (fun e => if key_eqb k e then (let (d, h) := judge c e in if d then negb h else false) else false) es.
+
+  Lemma refuted_sound : forall c k es, refuted c k es = true ->
+    exists e, In e es /\ key_eqb k e = true /\ decided c e = true /\ holds c e = false.
+  Proof.
+    intros c k es H. unfold refuted in H. apply existsb_exists in H. destruct H as [e [He Hb]].
+    rewrite judge_spec in Hb.
+    destruct (key_eqb k e) eqn:Hk; [|discriminate].
+    destruct (decided c e) eqn:Hd; [|discriminate].
+    exists e. repeat split; try assumption. apply negb_true_iff. exact Hb.
   Qed.
 
   (** what [holds] means, unfolded: equal results unless the col() form itself raises *)
